@@ -292,7 +292,7 @@ pub fn worker_main(chan: &Channel, a: WorkerArgs) {
     let mut i = a.from;
     while i < a.to {
         chan.send(&format!("{{\"t\":\"begin\",\"run\":{}}}", i));
-        let mut ctx = Ctx { chan, prop: a.prop.clone(), seed: a.seed, run: i, run_seed: run_seed(a.seed, &format!("{}-proc", a.prop), i), step: 0, tier: a.tier.clone(), dump: a.dump.clone(), stats: Stats::default(), digest: 0 };
+        let mut ctx = Ctx { chan, prop: a.prop.clone(), seed: a.seed, run: i, run_seed: run_seed(a.seed, &format!("{}-proc", a.prop), i), step: 0, tier: a.tier.clone(), dump: a.dump.clone(), stats: Stats::default(), digest: 0, verif: a.verif.clone() };
         let violations: Vec<Replay> = match a.prop.as_str() {
             "C03" => crate::c03::run_proc(&mut ctx, &corpus, &a.verif),
             "C10" => crate::c10::run_proc(&mut ctx, &corpus, &a.verif),
